@@ -292,7 +292,7 @@ theorem Part.deleteOldest_refines {cfg : Cfg} {p : Part} (h : p.Inv cfg) (now : 
 
 theorem retention_filter_last {c : Nat} {init : List Msg} {l : Msg} (h : consecutiveFrom c (init ++ [l])) :
     (init ++ [l]).filter (fun m => c + init.length ≤ m.off ∧ m.off < c + init.length + 1) = [l] := by
-  obtain ⟨h1, h2⟩ := consecutiveFrom_append.1 h
+  obtain ⟨h1, h2⟩ := consecutiveFrom_append_iff.1 h
   have hl : l.off = c + init.length := h2.1
   rw [List.filter_append]
   have : init.filter (fun m => c + init.length ≤ m.off ∧ m.off < c + init.length + 1) = [] := by
